@@ -8,14 +8,14 @@ V = Path(__file__).resolve().parent
 res = json.loads((V / "seeded" / "RESULTS.json").read_text())
 lines = ["# Seeded changes versus checks", "",
          "Written by `tools_coverage.py` from `seeded/RESULTS.json` (`python3 selftest/run_seeded.py`).",
-         "`a`, `b`: round 1, `c`, `d`: round 2, `e`, `f`: round 3 (breaking changes); `r` (round 2), `s` (round 3, large), `t` (round 3, small local edit): behaviour-preserving edits (must be silent).", "",
+         "`a`, `b`: round 1, `c`, `d`: round 2, `e`, `f`: round 3, `g`, `h`: round 4 (breaking changes); `r` (round 2), `s` / `t` (round 3: large / small), `u` / `v` (round 4: large / medium): behaviour-preserving edits (must be silent).", "",
          "| variant | target | kind | reported by | first report / note |", "|---|---|---|---|---|"]
 n_break = n_caught = n_own = n_benign = n_silent = 0
 for name in sorted(res):
     r = res[name]
     meta = json.loads((V / "seeded" / name / "meta.json").read_text()) if (V / "seeded" / name / "meta.json").exists() else {}
     tgt = meta.get("property", name.split("-")[0])
-    benign = meta.get("kind") == "benign" or name.split("-")[-1] in ("r", "s", "t")
+    benign = meta.get("kind") == "benign" or name.split("-")[-1] in ("r", "s", "t", "u", "v")
     if "error" in r:
         lines.append(f"| {name} | {tgt} | {'benign' if benign else 'breaking'} | (patch error) | {r['error'][:80]} |")
         continue
